@@ -93,7 +93,19 @@ def correct_checksum(readout: bytes) -> int:
 
 
 def noise(rng, n: int, flavour: str | None = None) -> tuple[bytes, str]:
-    flavour = flavour or rng.choice(("random", "struct", "ident_like", "ascii", "high", "bang_tail", "bang_in_ident", "binary_hdlc"))
+    flavour = flavour or rng.choice(("random", "struct", "ident_like", "ascii", "high", "bang_tail", "bang_in_ident", "binary_hdlc", "idle_line", "idle_line"))
+    if flavour == "idle_line":
+        # what a serial line carries between two messages: break / idle characters (NUL, 0xFF), flow control, stray line ends
+        def gap():
+            kind = rng.choice(("nul", "nul", "ff", "blank", "xon_xoff", "crlf", "nul_after_lf", "mixed", "none"))
+            k = rng.choice((1, 2, 3, 8, 40))
+            return {"nul": b"\x00" * k, "ff": b"\xff" * k, "blank": b" " * k, "xon_xoff": b"\x11\x13" * k, "crlf": b"\r\n" * k, "nul_after_lf": b"\n" + b"\x00" * k,
+                    "mixed": bytes(rng.choice(b"\x00\xff \r\n\x11\x13\x07") for _ in range(k)), "none": b""}[kind]
+
+        out = gap()
+        for _ in range(rng.randint(1, 4)):
+            out += strict_readout(rng, None, rng.choice((0, 1, 3)), checksum=rng.choice(("correct", None))) + gap()
+        return out, flavour
     if flavour == "random":
         out = rng.randbytes(n)
     elif flavour == "struct":
